@@ -364,7 +364,7 @@ pub fn free_running_probe<T: Sync>(pool: &[T], op: &(dyn Fn(&T) -> String + Sync
     (total.load(std::sync::atomic::Ordering::Relaxed), b)
 }
 
-pub const FREE_SIG: &str = "free-running:operation-depends-on-other-threads";
+pub const FREE_SIG: &str = "free-running:result-differs-from-the-result-alone";
 
 /// run the probe at the start of a check; Some(exit code) = the check stops here
 pub fn probe_first<T: Sync>(run: &mut crate::engine::Run, name: &str, pool: &[T], op: &(dyn Fn(&T) -> String + Sync), show: &(dyn Fn(&T) -> J + Sync)) -> bool {
@@ -382,7 +382,7 @@ pub fn probe_first<T: Sync>(run: &mut crate::engine::Run, name: &str, pool: &[T]
 /// replay of a probe witness: the probe repeated, longer
 pub fn replay_probe<T: Sync>(pool: &[T], op: &(dyn Fn(&T) -> String + Sync), show: &(dyn Fn(&T) -> J + Sync)) -> Verdict {
     match free_running_probe(pool, op, show, 16, 2500).1 {
-        Some(_) => Err((FREE_SIG.into(), "an operation's result differs while other threads run the same operation on other items".into())),
+        Some(_) => Err((FREE_SIG.into(), "an operation's result differs from its result alone (on a fresh thread) while this and other threads run the same operation on other items: it depends on earlier operations of the thread or on other threads".into())),
         None => Ok(()),
     }
 }
